@@ -148,8 +148,9 @@ def rule_cond(ctx, rep):
     for (leader, bullet, one), (content, blank) in itertools.product(leaders, contents):
         it = Interp(model)
         it.reset_run(Oracle())
-        it.func_hooks[pm.qualname] = lambda interp, fi, args, kwargs, leader=leader, content=content: (AbsInt('ind'), AbsInt('pre'), leader, content)
-        r = it.truth(it.call(it.getattr(lst, 'check_interrupts_paragraph'), [PeekLines(AbsStr(label='peeked'))], {}))
+        # the marker line itself, parsed by the code's own marker parser (whatever it returns and however it is read)
+        source = leader + (' ' + content if content.strip() else content)
+        r = it.truth(it.call(it.getattr(lst, 'check_interrupts_paragraph'), [PeekLines(source)], {}))
         want = spec.list_interrupts(True, blank, bullet, one)
         ok = bool(r) == want
         rep.obligation('R-INT-COND', ok, {'class': 'List', 'marker': leader, 'content_blank': blank, 'interrupts': bool(r), 'spec': want})
